@@ -58,8 +58,13 @@ ASSUMPTIONS = [
     "used again (the two would share one iterator; outside the property's operation set)",
     "skip/limit counts are ints or finite floats; filter on an endless stream keeps at least one item per period; "
     "list()/take(inf) only on finite streams (Python would not terminate otherwise)",
-    "endless (periodic) sources are covered by the tie and by the Lean spec (eventually periodic sequences); the "
-    "refinement theorems are stated for finite sources",
+    "endless (periodic) sources: the refinement is proved in both directions.  From the model's side "
+    "(periodic_step_refines, periodic_refines, hist_refines_periodic): whenever the model's step / run returns, for "
+    "whatever fuel, its observations are the list model's.  From the list model's side (periodic_total, hist_total): "
+    "on the histories on which Python itself returns — the list model never answers 'never returns' (list() / "
+    "take(inf) of an endless stream) and no filter is applied to an endless sequence whose whole period it rejects; "
+    "the predicate SpecLive, decidable by specLiveB — enough fuel exists and the runs are equal.  Outside SpecLive "
+    "nothing is claimed about termination (the real code hangs there; such histories are not generated)",
     "a list that the caller has passed to Stream() / append() / thub() is not mutated by him afterwards (it may be "
     "passed again, any number of times).  The list model takes the contents at the call (hist_ref_snapshot); the "
     "real code reads a list argument lazily through a list iterator, and whether a later mutation reaches the "
@@ -77,12 +82,18 @@ MANIFEST = {
             "model for every operation and every history over finite sources (step_refines, run_refines, "
             "independent, thub_uses, take_short, peek_pure, count rounding), also when the caller keeps, mutates "
             "and passes on the containers he gets and gives (hist_refines, hist_results_owned, hist_lists_frame, "
-            "hist_mut_state, hist_ref_snapshot); periodic sources: spec prefix lemma, bare periodic take, and the "
-            "differential tie",
+            "hist_mut_state, hist_ref_snapshot); over finite and periodic (endless) sources alike, whenever the "
+            "model returns its observations are the list model's, for every operation and every history "
+            "(periodic_step_refines, periodic_take_refines, periodic_refines, periodic_refines_prefix, "
+            "hist_refines_periodic; seq_eqv_sound), and on every history on which Python returns (SpecLive: no "
+            "list()/take(inf) of an endless sequence, no filter rejecting a whole period) enough fuel exists "
+            "(periodic_total, periodic_take_total, hist_total)",
     "note": "defect D1 (take/peek/limit/skip past the end raise RuntimeError under PEP 479) is recorded as known "
             "with four signatures; proposed_fixes/D1-take-past-end.diff repairs it (check then prints no finding)",
     "technique": "Lean 4 refinement proof (hub invariant buf ++ den parent = original, fuel-indexed next; caller "
-                 "containers as a second heap of values) + step-by-step differential histories impl vs model vs "
+                 "containers as a second heap of values; for periodic sources the denotation is an eventually "
+                 "periodic sequence up to re-folding of the period: soundness by induction on the fuel, termination by "
+                 "induction on hub depth / term size / distance to the next item that passes a filter) + step-by-step differential histories impl vs model vs "
                  "spec with identity assertions on caller-owned containers",
 }
 
